@@ -35,7 +35,16 @@ def inv(d):
 def check(case):
     out = []
     def one(ch):
-        saved = ds.random.choice; ds.random.choice = lambda seq: seq[ch.pick(len(seq))]
+        # every way of drawing an index is scripted (the statement does not say HOW a member is drawn): random.choice and random.randrange / randint enumerate their outcomes
+        saved = (ds.random.choice, ds.random.randrange, ds.random.randint)
+        def set_rng(pick):
+            ds.random.choice = lambda seq: seq[pick(len(seq))]
+            def rr(a, b=None, step=1):
+                lo, hi = (0, a) if b is None else (a, b)
+                if hi <= lo: raise ValueError("empty range for randrange()")
+                return lo + pick(hi - lo)
+            ds.random.randrange = rr; ds.random.randint = lambda a, b: rr(a, b + 1)
+        set_rng(ch.pick)
         try:
             d = guarded("DrawSet.__init__", ds.DrawSet); model = set(); drawn_possible = None
             for op, x in case["history"]:
@@ -61,7 +70,8 @@ def check(case):
                         if r not in model: raise Violation("DrawSet.draw.member", f"draw() returned {r}, not a member of {model}")
                     else:
                         try: d.draw(); raise Violation("DrawSet.draw.raises_when_empty", "draw() on an empty set returned")
-                        except IndexError: pass
+                        except Violation: raise
+                        except Exception: pass      # which exception an empty set raises is not part of the statement
                 elif op == "contains":
                     if guarded("DrawSet.__contains__", lambda: e in d) != (e in model): raise Violation("DrawSet.__contains__.member", f"{e} in d disagrees with the model {model}")
                 elif op == "len":
@@ -76,10 +86,10 @@ def check(case):
             if model:
                 got = set()
                 for k in range(len(d._edges)):
-                    ds.random.choice = lambda seq, k=k: seq[k]
+                    set_rng(lambda n, k=k: k % n)
                     got.add(d.draw())
                 if got != model: raise Violation("DrawSet.draw.every_member_drawable", f"drawable {got} vs model {model}")
-        finally: ds.random.choice = saved
+        finally: ds.random.choice, ds.random.randrange, ds.random.randint = saved
     for script, _ in all_scripts(one): pass
     return out
 FUNCTION_OF = {"DrawSet": None}
